@@ -226,11 +226,13 @@ def runner(rep, tier, seed, replay):
             got[i] = g
         log("[C05] in-process sweep of %d strings: %.0fs (%d without the planner stage)" % (len(strings), time.time() - t1, len(idx_cheap)))
         # hangs are re-run once with a 10x budget before they are called violations
-        slow = [i for i, g in enumerate(got) if g and g.get("hang")]
+        # (also an answer that is missing altogether or a worker that died: on a loaded machine a worker can simply be starved)
+        slow = [i for i, g in enumerate(got) if g is None or (g and (g.get("hang") or "abort" in g))]
         if slow:
-            again = inproc_map("stages", [{"id": i, "line": strings[i][0]} for i in slow[:50]], cwd=wd, timeout=150,
-                               env={"HOME": "/verif-home", "A": "va"}, jobs=8)
-            for i, g in zip(slow[:50], again):
+            log("[C05] %d in-process answers late or missing; asking again with a generous budget" % len(slow))
+            again = inproc_map("stages", [{"id": i, "line": strings[i][0]} for i in slow[:200]], cwd=wd, timeout=150,
+                               env={"HOME": "/verif-home", "A": "va"}, jobs=4)
+            for i, g in zip(slow[:200], again):
                 got[i] = g
         drift = 0
         for (s, complete, alpha), g in zip(strings, got):
@@ -276,6 +278,12 @@ def runner(rep, tier, seed, replay):
         rep.add_tlc(r6)
         log("[C05] %d strings of length 6 for the cheap stages" % len(cheap))
         got6 = inproc_map("cheap", [{"id": i, "line": s} for i, s in enumerate(cheap)], timeout=15)
+        sus6 = [i for i, g in enumerate(got6) if g is None or (g and (g.get("hang") or "abort" in g))]
+        if sus6:
+            log("[C05] %d cheap-stage answers missing; asking again with a generous budget" % len(sus6))
+            again6 = inproc_map("cheap", [{"id": k, "line": cheap[i]} for k, i in enumerate(sus6[:200])], jobs=2, timeout=120)
+            for i, g2 in zip(sus6[:200], again6):
+                got6[i] = g2
         for s, g in zip(cheap, got6):
             rep.cov["evaluations"] += 1
             feat = {"layer": "inproc", "alphabet": "Quote", "len": 6, "chars": sorted(set(s))}
